@@ -120,6 +120,162 @@ def _passes_sweep(ctx, fi, stmts) -> bool:
     return False
 
 
+def _derived_names(fi, seeds):
+    """locals computed from the seed names only: assigned from an expression reading them, bound by a loop over them, or filled
+    by a mutating call whose arguments read them"""
+    der = set(seeds)
+    for _ in range(6):
+        before = len(der)
+        for n in ast.walk(fi.node):
+            reads = lambda e: any(isinstance(x, ast.Name) and x.id in der for x in ast.walk(e))
+            if isinstance(n, ast.Assign) and reads(n.value):
+                for t in n.targets:
+                    for x in ast.walk(t):
+                        if isinstance(x, ast.Name):
+                            der.add(x.id)
+            elif isinstance(n, ast.For) and reads(n.iter):
+                for x in ast.walk(n.target):
+                    if isinstance(x, ast.Name):
+                        der.add(x.id)
+            elif isinstance(n, ast.Call) and isinstance(n.func, ast.Attribute) and isinstance(n.func.value, ast.Name) \
+                    and n.func.attr in ("append", "add", "setdefault", "update", "extend", "insert") and any(reads(a) for a in n.args):
+                der.add(n.func.value.id)
+        if len(der) == before:
+            break
+    return der
+
+
+def _collecting_form(ctx, rep, fi, call):
+    """prune validates its own node in collecting mode (nothing is raised, so there is no handler to steer on): every path
+    from the validation to the descent into the children passes the disallowed-children sweep, at most under a test that reads
+    nothing but the collected error list"""
+    errs = None
+    if len(call.args) > 1 and isinstance(call.args[1], ast.Name):
+        errs = call.args[1].id
+    for k in call.keywords:
+        if isinstance(k.value, ast.Name):
+            errs = k.value.id
+    der = _derived_names(fi, {errs}) if errs else set()
+
+    def block_of(stmts):
+        for i, st in enumerate(stmts):
+            if isinstance(st, ast.Expr) and st.value is call:
+                return stmts[i + 1:]
+            for fld in ("body", "orelse", "finalbody"):
+                sub = getattr(st, fld, None)
+                if isinstance(sub, list) and sub and isinstance(sub[0], ast.stmt):
+                    r = block_of(sub)
+                    if r is not None:
+                        return r
+        return None
+    rest = block_of(fi.node.body)
+    rep.count("handlers of node(n) in prune", 2)  # the collecting form has no handlers; the path rule below replaces them
+    if rest is None:
+        raise AnalysisError("validate.prune: the collecting validation of prune's own node is not a statement of its own")
+
+    def passes(stmts):
+        for st in stmts:
+            if _is_sweep(ctx, fi, st):
+                return True
+            if isinstance(st, (ast.Return, ast.Raise)):
+                return True
+            if isinstance(st, ast.If):
+                names = {x.id for x in ast.walk(st.test) if isinstance(x, ast.Name)}
+                if names and names <= der | {"len", "any", "all", "bool"} and (passes(st.body) or passes(st.orelse)):
+                    # whether the error list calls for a sweep is the validator's word (C01/C03/C04 decide that it reports every
+                    # violated constraint); the sweep itself still asks the rule
+                    rep.assumptions.append("the collected error list of node(n) names a not-allowed child whenever there is one (C01/C04)") \
+                        if "the collected error list of node(n) names a not-allowed child whenever there is one (C01/C04)" not in rep.assumptions else None
+                    return True
+                if passes(st.body) and passes(st.orelse):
+                    return True
+            if isinstance(st, ast.For) and any(isinstance(c, ast.Call) and _resolves_to(ctx, fi, c, PRUNE) for c in ast.walk(st)):
+                return False  # the descent is reached without a sweep
+        return False
+    ok = passes(rest)
+    rep.oblige(("R2", "collecting-form"), ok)
+    if not ok:
+        rep.add("R2", fi.qname, call, "after validating its own node in collecting mode prune reaches the descent into the children on a path that "
+                "does not sweep out the children the rule does not allow", fi.loc(call))
+
+
+def _victims_justified(ctx, rep, fi):
+    """every removal in prune is justified by one of the three reasons the property names: the node's own name is unknown (the
+    removed node is prune's own parameter), the parent's rule does not allow the child (the removal is governed, with the right
+    polarity, by the rule's allowed-child query on the parent's rule), or strict single-node validation of the child failed
+    (the removal sits in a handler of, or under a test of the error list of, node(child))"""
+    from ..condeval import enclosing_ifs
+    from ..peval import PEval, PEvalUnsupported, Raised
+    import copy as _c
+    nparam = fi.params[0]
+
+    def is_test(n):
+        return isinstance(n, ast.Call) and isinstance(n.func, ast.Attribute) and n.func.attr == "is_allowed_child"
+    parents = {}
+    for n in ast.walk(fi.node):
+        for c in ast.iter_child_nodes(n):
+            parents[id(c)] = n
+    for (d, x, how) in discard_sites(ctx, fi):
+        rep.count("removals justified")
+        base = x.split(".")[0]
+        why = None
+        if x == nparam:
+            why = "own"
+        if why is None:
+            # strict: inside a handler of a try whose body validates this very child, or under a test of its error list
+            cur = d
+            while id(cur) in parents and why is None:
+                par = parents[id(cur)]
+                if isinstance(par, ast.ExceptHandler):
+                    tr = parents.get(id(par))
+                    if isinstance(tr, ast.Try) and any(isinstance(c, ast.Call) and _resolves_to(ctx, fi, c, NODEF) and c.args and _path(c.args[0]) == x
+                                                       for b in tr.body for c in ast.walk(b)):
+                        why = "strict"
+                cur = par
+        if why is None:
+            for c in ast.walk(fi.node):
+                if isinstance(c, ast.Call) and _resolves_to(ctx, fi, c, NODEF) and c.args and _path(c.args[0]) == x and len(c.args) > 1 \
+                        and isinstance(c.args[1], ast.Name):
+                    der = _derived_names(fi, {c.args[1].id})
+                    for (g, side) in enclosing_ifs(fi, d):
+                        names = {y.id for y in ast.walk(g.test) if isinstance(y, ast.Name)}
+                        if names & der and c.lineno < g.lineno:
+                            why = "strict"
+        if why is None:
+            for (g, side) in enclosing_ifs(fi, d):
+                if not any(is_test(y) for y in ast.walk(g.test)):
+                    continue
+
+                def verdict(allowed):
+                    class Stub(ast.NodeTransformer):
+                        def visit_Call(self, n):
+                            if is_test(n):
+                                return ast.Constant(value=allowed)
+                            return self.generic_visit(n)
+                    childobj = {"__obj__": True, "name": "c", "_name": "c", "children": [], "_children": []}
+                    env = {base: childobj, nparam: {"__obj__": True, "name": "p", "_name": "p", "children": [childobj], "_children": [childobj]}}
+                    if len(fi.params) > 1:
+                        env[fi.params[1]] = False
+                    pe = PEval(ctx.world)
+                    try:
+                        return bool(pe.truth(pe.eval(Stub().visit(_c.deepcopy(g.test)), env, fi), g.test))
+                    except (PEvalUnsupported, Raised):
+                        return None
+                if verdict(False) == side and verdict(True) == (not side):
+                    why = "rule"
+            if why is None:
+                # two-step form: the loop ranges over a collection filtered by the query
+                for lp in ast.walk(fi.node):
+                    if isinstance(lp, ast.For) and any(y is d for y in ast.walk(lp)) and _is_sweep(ctx, fi, lp) and not any(is_test(y) for y in ast.walk(lp)):
+                        why = "rule"
+        rep.oblige(("R2", "victim", norm(d)), why is not None, sample={"removal": norm(d)[:60], "justified by": why})
+        if why is None:
+            rep.add("R2", fi.qname, d, f"`{x}` is removed although neither the rule's allowed-child query (is_allowed_child on the parent's rule), nor an "
+                    f"unknown name of prune's own node, nor a failed strict validation of `{x}` governs the removal: prune must remove exactly the "
+                    f"offending subtrees", fi.loc(d))
+    rep.floor("removals justified", 2)
+
+
 def rule_r2(ctx, rep):
     prog = ctx.prog
     h = ctx.hier
@@ -128,6 +284,14 @@ def rule_r2(ctx, rep):
     for t in ast.walk(fi.node):
         if isinstance(t, ast.Try) and any(isinstance(n, ast.Call) and _resolves_to(ctx, fi, n, NODEF) for b in t.body for n in ast.walk(b)):
             tries.append(t)
+    _victims_justified(ctx, rep, fi)
+    own_calls = [n for n in ast.walk(fi.node) if isinstance(n, ast.Call) and _resolves_to(ctx, fi, n, NODEF) and n.args and isinstance(n.args[0], ast.Name)
+                 and n.args[0].id == fi.params[0]]
+    collecting = [c for c in own_calls if (len(c.args) > 1 and not (isinstance(c.args[1], ast.Constant) and c.args[1].value is None))
+                  or any(k.arg is not None and not (isinstance(k.value, ast.Constant) and k.value.value is None) for k in c.keywords)]
+    if collecting and not any(any(x is c for b in t.body for x in ast.walk(b)) for t in tries for c in collecting):
+        _collecting_form(ctx, rep, fi, collecting[0])
+        return
     if not tries:
         raise AnalysisError("anchor vanished: try around node(n) in validate.prune")
     from ..exc import resolve_exc_class
@@ -461,11 +625,12 @@ def run(ctx, rep):
         "the unknown-node one passes the disallowed-children sweep on all its paths; each result record is paired with the removal "
         "and the unregistration of the same node and vice versa; prune's effect summary is limited to child removal and "
         "unregistration; membership tests against local lists compare like with like")
-    rep.rules_run = ["R1", "R2", "R3", "R4", "R5", "R6"]
-    rep.assumptions += ["NOT decided: that strict mode leaves only valid nodes and that a second prune removes nothing (follow from C04/C01 semantics)",
+    rep.rules_run = ["R1", "R2", "R3", "R4", "R5", "R6", "R7"]
+    rep.assumptions += ["R7 decides the outcome of prune on a catalogue of small documents in both modes (incl. a second run); not for every tree",
                         "distinct variables iterating a duplicate-free child list denote distinct nodes",
                         "D-TREE / D-REG provisos as in C04"]
     only = getattr(rep, "only", None)
-    for name, fn in (("R1", rule_r1), ("R2", rule_r2), ("R3", rule_r3), ("R4", rule_r4), ("R5", rule_r5), ("R6", rule_r6)):
+    from .c15_worlds import rule_r7
+    for name, fn in (("R1", rule_r1), ("R2", rule_r2), ("R3", rule_r3), ("R4", rule_r4), ("R5", rule_r5), ("R6", rule_r6), ("R7", rule_r7)):
         if only in (None, name):
             fn(ctx, rep)
